@@ -1,6 +1,7 @@
 package main
 
 import (
+	"bytes"
 	"encoding/json"
 	"errors"
 	"fmt"
@@ -15,6 +16,9 @@ import (
 	"github.com/go-git/go-git/v6/plumbing"
 	"github.com/go-git/go-git/v6/plumbing/filemode"
 	"github.com/go-git/go-git/v6/plumbing/format/index"
+	"github.com/go-git/go-git/v6/plumbing/format/packfile"
+	"github.com/go-git/go-git/v6/plumbing/storer"
+	"github.com/go-git/go-git/v6/storage/memory"
 	"github.com/go-git/go-git/v6/storage"
 )
 
@@ -188,6 +192,40 @@ func (w *smWorld) apply(s storage.Storer, st smStep) string {
 			return "error:wrong-hash"
 		}
 		return errKind(err)
+	case "addpack":
+		// the objects arrive together as one pack; backends without a PackfileWriter take them one by one
+		names := st.aSet()
+		pw, ok := s.(storer.PackfileWriter)
+		if !ok {
+			for _, n := range names {
+				a, _ := json.Marshal(n)
+				if k := w.apply(s, smStep{Op: "setobj", A: a}); k != "ok" {
+					return k
+				}
+			}
+			return "ok"
+		}
+		ms := memory.NewStorage()
+		var hs []plumbing.Hash
+		for _, n := range names {
+			if _, err := ms.SetEncodedObject(w.objs[n]); err != nil {
+				return errKind(err)
+			}
+			hs = append(hs, w.objs[n].Hash())
+		}
+		var buf bytes.Buffer
+		if _, err := packfile.NewEncoder(&buf, ms, false).Encode(hs, 0); err != nil {
+			return errKind(err)
+		}
+		wr, err := pw.PackfileWriter()
+		if err != nil {
+			return errKind(err)
+		}
+		if _, err := wr.Write(buf.Bytes()); err != nil {
+			wr.Close()
+			return errKind(err)
+		}
+		return errKind(wr.Close())
 	case "setindex":
 		return errKind(s.SetIndex(w.index(st.aStr())))
 	case "setshallow":
